@@ -97,6 +97,9 @@ thread_local! {
 	static LAST_PANIC: std::cell::RefCell<Option<String>> = std::cell::RefCell::new(None);
 }
 
+/// The most recent panic of any thread (for reporting a crash of the harness itself).
+pub static LAST_PANIC_ANYWHERE: Mutex<Vec<String>> = Mutex::new(Vec::new());
+
 pub fn install_quiet_panic_hook() {
 	std::panic::set_hook(Box::new(|info| {
 		let msg = if let Some(s) = info.payload().downcast_ref::<&str>() {
@@ -110,6 +113,12 @@ pub fn install_quiet_panic_hook() {
 			.location()
 			.map(|l| format!("{}:{}", l.file(), l.line()))
 			.unwrap_or_default();
+		if let Ok(mut g) = LAST_PANIC_ANYWHERE.try_lock() {
+			if g.len() > 64 {
+				g.remove(0);
+			}
+			g.push(format!("{msg} @ {loc}"));
+		}
 		LAST_PANIC.with(|p| *p.borrow_mut() = Some(format!("{msg} @ {loc}")));
 	}));
 }
